@@ -51,11 +51,11 @@ Proof.
   match goal with |- context [iter_n (try_put_index c) (c_P c * W) ?S] =>
     assert (S = init0 c cyc0 workers (sn_step sn) (fst (sn_main sn)) (snd (sn_main sn)) (sn_last sn) (sn_workers sn) sn) as -> by reflexivity end.
   destruct (start_iter c Hkind HW HP B cyc0 cyc0_lt Ha0 wk0 workers (sn_step sn) (fst (sn_main sn)) (snd (sn_main sn)) (sn_last sn) (sn_workers sn) sn Hws resume_entries_ok)
-    as (gw & rd & R & H & HR & HA & HS & Eny & HWw).
-  cbn zeta in H, HR, HA, HS, Eny, HWw.
+    as (gw & rd & R & H & HR & HA & HS & Eny & HWw & HX).
+  cbn zeta in H, HR, HA, HS, Eny, HWw, HX.
   set (s3 := iter_n (try_put_index c) (c_P c * W) _) in *.
-  destruct (replay_iter c Hkind HW HP B cyc0 cyc0_lt wk0 (sd_steps d) gw rd (a0 cyc0) R s3 (refsuf W B 0 cyc0) sched Hsteps H HR HA HS HWw)
-    as (s4 & sched4 & gw' & rd' & a' & R' & E & H4 & HR4 & HA4 & HS4 & _ & HW4).
+  destruct (replay_iter c Hkind HW HP B cyc0 cyc0_lt wk0 (sd_steps d) gw rd (a0 cyc0) R s3 (refsuf W B 0 cyc0) sched Hsteps H HR HA HS HWw HX)
+    as (s4 & sched4 & gw' & rd' & a' & R' & E & H4 & HR4 & HA4 & HS4 & _ & HW4 & HX4 & _).
   rewrite E.
   match goal with |- outcomes c _ ?S _ = _ => set (sF := S) end.
   assert (agree s4 sF) as Hag by (unfold agree, sF; cbn; repeat split; reflexivity).
@@ -66,7 +66,8 @@ Proof.
   pose proof (Act_agree c gw' rd' a' s4 sF HA4 Hag) as HAF.
   pose proof (InvS_ext c B (m_ny s4) gw' rd' s4 sF HS4 HagS ltac:(rewrite Hinf; reflexivity)) as HSF.
   assert (InvW c cyc0 wk0 gw' rd' a' sF) as HWF by (apply (InvW_ext c cyc0 wk0 gw' rd' a' s4 sF HW4); [unfold agreeW; repeat split; reflexivity | intros; reflexivity]).
-  pose proof (outcomes_iter c Hkind HW HP B cyc0 cyc0_lt wk0 (skipn (sd_steps d) (refsuf W B 0 cyc0)) gw' rd' a' R' sF sched4 HF HRF HAF HSF HWF) as Hout.
+  assert (InvX c B cyc0 wk0 gw' rd' sF) as HXF by (apply (InvX_ext c B cyc0 wk0 gw' rd' s4 sF HX4); [unfold agreeX; repeat split; reflexivity | intros; reflexivity]).
+  pose proof (outcomes_iter c Hkind HW HP B cyc0 cyc0_lt wk0 (skipn (sd_steps d) (refsuf W B 0 cyc0)) gw' rd' a' R' sF sched4 HF HRF HAF HSF HWF HXF) as Hout.
   rewrite skipn_length in Hout. exact Hout.
 Qed.
 
@@ -180,8 +181,8 @@ Theorem iter_resume_exact_I0 : forall k sched1 sched2, k <= length (reference c)
   outcomes c (S (length (reference c) - k)) sr sched' = map OBatch (skipn k (reference c)) ++ [OStop].
 Proof.
   intros k sched1 sched2 Hk.
-  destruct (fresh_start c Hkind HW HP) as (gw & rd & R & H & HR & HA & HS & Eny & HWw).
-  destruct (replay_iter c Hkind HW HP (Bw c) 0 HW wk_fresh0 k gw rd (a0 0) R (sdl_fresh c) (reference c) sched1 Hk H HR HA HS HWw)
+  destruct (fresh_start c Hkind HW HP) as (gw & rd & R & H & HR & HA & HS & Eny & HWw & HX).
+  destruct (replay_iter c Hkind HW HP (Bw c) 0 HW wk_fresh0 k gw rd (a0 0) R (sdl_fresh c) (reference c) sched1 Hk H HR HA HS HWw HX)
     as (sk & sched1' & gw' & rd' & a' & R' & E & _ & _ & _ & _ & Enk & _).
   pose proof (replay_snap k (sdl_fresh c) sched1) as Hsn. rewrite E in *. cbn [fst] in Hsn.
   assert (m_snapshot (sdl_fresh c) = snap0) as Hs0 by (unfold sdl_fresh; rewrite iter_put_snap; reflexivity).
@@ -199,3 +200,170 @@ Proof.
 Qed.
 
 End ResumeNoSnapshots.
+
+(* ------------------------------------------------------------------ *)
+(* snapshot_every_n_steps = 1 (the default) *)
+Section ResumeEveryStep.
+Variable c : cfg.
+Hypothesis Hkind : c_kind c = KIter.
+Hypothesis HW : 0 < c_W c.
+Hypothesis HP : 0 < c_P c.
+Hypothesis Hst : c_stateful c = true.
+Hypothesis HI1 : c_I c = 1.
+Notation W := (c_W c).
+Notation wstf := (wst c 0 wk_fresh0).
+
+Lemma fut_wsk w : forall j, Fut c (Bw c) w j (wsk c 0 wk_fresh0 w j).
+Proof.
+  induction j as [|j IH].
+  - unfold wsk. cbn. apply fut_fresh, Hkind.
+  - rewrite wsk_S by (cbn; lia). unfold wstep. pose proof (fut_fetch c (Bw c) w j _ t0 IH) as F.
+    destruct (worker_fetch c w (wsk c 0 wk_fresh0 w j) t0) as [[r st] k']. exact (proj2 F).
+Qed.
+
+Lemma fut_restored w j : Fut c (Bw c) w j (wk_restored (wstf w j)).
+Proof. apply (fut_congr c Hkind (Bw c) w j (wsk c 0 wk_fresh0 w j)); [reflexivity | reflexivity | apply fut_wsk]. Qed.
+
+Lemma fut_beyond B w j j' k : Fut c B w j k -> nb B w <= j -> j <= j' -> Fut c B w j' k.
+Proof.
+  intros H Hn Hj ts. rewrite H. generalize (length ts). intros n. clear H. revert j j' Hn Hj.
+  induction n as [|n IH]; intros j j' Hn Hj; [reflexivity|]. cbn [seq map]. rewrite !ans_stop by lia. f_equal. apply IH; lia.
+Qed.
+
+Lemma ans_rem B R1 c1 w i : ans (Brem B R1 c1) w (a0 c1 w + i) = ans B w (cnt R1 c1 w + i).
+Proof.
+  unfold ans, Brem, a0, cnt, b2n. destruct (w <? c1).
+  - cbn [Nat.add nth_error]. rewrite nth_error_skipn. replace (R1 + 1 + i) with (S R1 + i) by lia. reflexivity.
+  - cbn [Nat.add]. rewrite nth_error_skipn. rewrite Nat.add_0_r. reflexivity.
+Qed.
+
+Lemma fut_rem B R1 c1 w k : Fut c B w (cnt R1 c1 w) k -> Fut c (Brem B R1 c1) w (a0 c1 w) k.
+Proof.
+  intros H ts. rewrite H. generalize (length ts). intros n. clear H.
+  assert (forall i, map (ans B w) (seq (cnt R1 c1 w + i) n) = map (ans (Brem B R1 c1) w) (seq (a0 c1 w + i) n)) as X.
+  { induction n as [|n IH]; intros i; [reflexivity|]. cbn [seq map]. rewrite ans_rem. f_equal.
+    replace (S (cnt R1 c1 w + i)) with (cnt R1 c1 w + S i) by lia. replace (S (a0 c1 w + i)) with (a0 c1 w + S i) by lia. apply IH. }
+  specialize (X 0). rewrite !Nat.add_0_r in X. exact X.
+Qed.
+
+
+(* the entry of worker w written at the last hand-out is its state after ALL its tasks at slots before the pointer that follows
+   the handed-out slot (capped at its end-of-shard notice) *)
+Lemma entry_exact gw rd a R s w : InvC c (Bw c) 0 gw rd a R s -> InvX c (Bw c) 0 wk_fresh0 gw rd s -> PostH c (Bw c) gw rd s -> w < W ->
+  let kk := m_rcvd s - 1 in
+  let R1 := if S (gw kk) =? W then S (rd kk) else rd kk in
+  let c1 := if S (gw kk) =? W then 0 else S (gw kk) in
+  exists j, nth w (m_wsnap s) (0, false) = wstf w j /\ (j = cnt R1 c1 w \/ (nb (Bw c) w < j /\ j <= cnt R1 c1 w)).
+Proof.
+  intros H HX HPo Hw. cbn zeta. destruct (HPo HI1) as (Hr0 & _ & _ & _ & Hdk).
+  set (kk := m_rcvd s - 1) in *. set (u := gw kk) in *.
+  assert (kk < m_rcvd s) as Hkk by lia. pose proof (c_kn _ _ _ _ _ _ _ _ H) as Hkn.
+  assert (u < W) as Hu by (apply (c_gw _ _ _ _ _ _ _ _ H); lia).
+  set (R1 := if S u =? W then S (rd kk) else rd kk). set (c1 := if S u =? W then 0 else S u).
+  assert (c1 < W) as Hc1 by (unfold c1; destruct (Nat.eqb_spec (S u) W); lia).
+  destruct (x_s _ _ _ _ _ _ _ HX HI1 w Hw) as (j & Ej & Hmax & Hj). exists j. split; [exact Ej|].
+  (* tasks before the receive pointer have slots <= slot kk, the others have later slots *)
+  assert (forall t, t < m_rcvd s -> gw t = w -> rd t < cnt R1 c1 w) as Hbefore.
+  { intros t Ht Hg. destruct (Nat.eq_dec t kk) as [->|Hne].
+    - fold u in Hg. subst w. unfold cnt, b2n, R1, c1. destruct (Nat.eqb_spec (S u) W); [destruct (Nat.ltb_spec u 0); lia | destruct (Nat.ltb_spec u (S u)); lia].
+    - pose proof (c_mono _ _ _ _ _ _ _ _ H t kk ltac:(lia) ltac:(lia)) as M. fold u in M. rewrite Hg in M.
+      unfold cnt, b2n, R1, c1. destruct (Nat.eqb_spec (S u) W); [destruct (Nat.ltb_spec w 0) | destruct (Nat.ltb_spec w (S u))]; lia. }
+  assert (forall t, m_rcvd s <= t < m_send s -> gw t = w -> cnt R1 c1 w <= rd t) as Hafter.
+  { intros t Ht Hg. pose proof (c_mono _ _ _ _ _ _ _ _ H kk t ltac:(lia) ltac:(lia)) as M. fold u in M. rewrite Hg in M.
+    unfold cnt, b2n, R1, c1. destruct (Nat.eqb_spec (S u) W); [destruct (Nat.ltb_spec w 0) | destruct (Nat.ltb_spec w (S u))]; lia. }
+  assert (j <= cnt R1 c1 w) as Hle.
+  { destruct Hj as [->|(t & T1 & T2 & T3 & T4)]; [cbn; lia|]. specialize (Hbefore t T1 T2). lia. }
+  destruct (Nat.le_gt_cases j (nb (Bw c) w)) as [Hjn|Hjn]; [left | right; split; [exact Hjn | exact Hle]].
+  (* j <= nb w: every round below cnt is a passed task, hence below j *)
+  destruct (Nat.eq_dec j (cnt R1 c1 w)) as [E|NE]; [exact E|exfalso].
+  assert (j < cnt R1 c1 w) as Hlt by lia.
+  (* round j of worker w is a task *)
+  destruct (c_d _ _ _ _ _ _ _ _ H w Hw) as (D1 & D2 & D3).
+  assert (j < dsp a s w) as Hjd.
+  { destruct (act s w) eqn:Ea.
+    - (* active: dispatched count = slots passed by the dispatch pointer >= slots before the receive pointer *)
+      destruct (Nat.le_gt_cases (dsp a s w) j) as [Hc|Hc]; [|exact Hc]. exfalso.
+      (* the last passed task kk lies below the dispatch pointer *)
+      destruct (c_d _ _ _ _ _ _ _ _ H u Hu) as (_ & D2u & D3u). specialize (D2u kk ltac:(lia) eq_refl).
+      assert (dsp a s u <= cnt R (m_cyc s) u) as Hdu by (destruct (act s u); lia).
+      pose proof (c_cyc _ _ _ _ _ _ _ _ H) as Hcyc.
+      revert Hlt Hc D3 D2u Hdu. unfold cnt, b2n, R1, c1. generalize (dsp a s w) (dsp a s u). intros dw du.
+      destruct (Nat.eqb_spec (S u) W); repeat match goal with |- context [?x <? ?y] => destruct (Nat.ltb_spec x y) end; lia.
+    - lia. }
+  destruct (D1 j ltac:(cbn; lia)) as (t & T1 & T2 & T3).
+  destruct (Nat.lt_ge_cases t (m_rcvd s)) as [Hp|Hp].
+  - specialize (Hmax t Hp T2 ltac:(lia)). lia.
+  - specialize (Hafter t ltac:(lia) T2). lia.
+Qed.
+
+
+Lemma nth_map_restored (l : list wsave) w : nth w (map (fun sv : wsave => wk_restored (fst sv, snd sv)) l) wk_fresh = wk_restored (nth w l (0, false)).
+Proof.
+  change wk_fresh with ((fun sv : wsave => wk_restored (fst sv, snd sv)) (0, false)). rewrite map_nth. destruct (nth w l (0, false)); reflexivity.
+Qed.
+
+(* C01, iterable datasets with their own state, snapshot_every_n_steps = 1 (the default): a checkpoint at ANY batch, under EVERY pair
+   of arrival schedules, resumes the exact remaining stream *)
+Theorem iter_resume_exact_I1 : forall k sched1 sched2, k <= length (reference c) ->
+  let '(sk, _) := replay c k (sdl_fresh c) sched1 in
+  let '(sr, sched') := sdl_resume c (state_dict sk) sched2 in
+  outcomes c (S (length (reference c) - k)) sr sched' = map OBatch (skipn k (reference c)) ++ [OStop].
+Proof.
+  intros k sched1 sched2 Hk.
+  destruct (fresh_start c Hkind HW HP) as (gw & rd & R & H & HR & HA & HS & Eny & HWw & HX).
+  destruct (replay_iter c Hkind HW HP (Bw c) 0 HW wk_fresh0 k gw rd (a0 0) R (sdl_fresh c) (reference c) sched1 Hk H HR HA HS HWw HX)
+    as (sk & sched1' & gw' & rd' & a' & R' & E & H' & HR' & _ & _ & Enk & HW' & HX' & HP').
+  rewrite E. rewrite Eny in Enk. cbn in Enk.
+  destruct (Nat.eq_dec k 0) as [->|Hk0].
+  - (* nothing handed out yet: the initial snapshot *)
+    cbn [replay] in E. injection E as <- _.
+    assert (m_snapshot (sdl_fresh c) = snap0 c) as Hs0 by (unfold sdl_fresh; rewrite iter_put_snap; reflexivity).
+    assert (state_dict (sdl_fresh c) = {| sd_snapshot := snap0 c; sd_steps := 0; sd_finished := m_finished (sdl_fresh c) |}) as ->.
+    { unfold state_dict. rewrite Hs0, Eny. reflexivity. }
+    set (d := {| sd_snapshot := snap0 c; sd_steps := 0; sd_finished := m_finished (sdl_fresh c) |}).
+    assert (S (sn_last (sd_snapshot d)) mod c_W c = 0) as E0.
+    { cbn. replace (S (c_W c - 1)) with (c_W c) by lia. apply Nat.mod_same. lia. }
+    pose proof (resume_main_exact c Hkind HW HP Hst (Bw c) d) as T. rewrite E0 in T.
+    assert (map (fun sv : wsave => wk_restored (fst sv, snd sv)) (sn_workers (sd_snapshot d)) = repeat wk_fresh (c_W c)) as Ew.
+    { unfold d. cbn [sd_snapshot sn_workers snap0]. generalize (c_W c). intros n. induction n as [|n IH]; [reflexivity|]. cbn [repeat map]. rewrite IH. reflexivity. }
+    rewrite Ew in T. specialize (T (fresh_workers_ok c Hkind) ltac:(intros w _; cbn; lia) sched2).
+    rewrite (refsuf_start c Hkind HW) in T. exact (T Hk).
+  - (* at least one batch handed out: the snapshot taken at the last hand-out *)
+    specialize (HP' ltac:(lia)). destruct (HP' HI1) as (Hr0 & Psn & Pst & Pla & Pdk).
+    set (kk := m_rcvd sk - 1) in *. set (u := gw' kk) in *.
+    pose proof (c_kn _ _ _ _ _ _ _ _ H') as Hkn.
+    assert (u < W) as Hu by (apply (c_gw _ _ _ _ _ _ _ _ H'); lia).
+    set (R1 := if S u =? W then S (rd' kk) else rd' kk). set (c1 := if S u =? W then 0 else S u).
+    assert (c1 < W) as Hc1 by (unfold c1; destruct (Nat.eqb_spec (S u) W); lia).
+    assert (S (sn_last (sd_snapshot (state_dict sk))) mod W = c1) as Ec1.
+    { cbn [state_dict sd_snapshot]. rewrite Pla. fold u. unfold c1. destruct (Nat.eqb_spec (S u) W) as [EW|NW]; [rewrite EW; apply Nat.mod_same; lia | apply Nat.mod_small; lia]. }
+    set (B1 := Brem (Bw c) R1 c1).
+    pose proof (resume_main_exact c Hkind HW HP Hst B1 (state_dict sk)) as T. rewrite Ec1 in T.
+    assert (sd_steps (state_dict sk) = 0) as Est0 by (cbn [state_dict sd_steps]; rewrite Pst; lia).
+    (* the remaining stream, read from the slot after the last handed-out one *)
+    assert (refsuf W B1 0 c1 = skipn k (reference c)) as Eref.
+    { unfold B1. rewrite (refsuf_canon W (Bw c) HW R1 c1 Hc1).
+      assert (kk < m_send sk) as Hkks by lia.
+      destruct (c_d _ _ _ _ _ _ _ _ H' u Hu) as (_ & D2u & D3u). specialize (D2u kk Hkks eq_refl).
+      assert (dsp a' sk u <= cnt R' (m_cyc sk) u) as Hdu by (destruct (act sk u); lia).
+      pose proof (c_cyc _ _ _ _ _ _ _ _ H') as Hcyc.
+      rewrite (walk_rest c HW HP (Bw c) 0 HW gw' rd' a' R' sk H' _ R1 c1 (m_rcvd sk) eq_refl); [symmetry; exact HR' | | exact Hc1 | right; lia | exact Hkn | | ].
+      - revert D2u Hdu. unfold cnt, b2n, R1, c1. generalize (dsp a' sk u). intros du.
+        destruct (Nat.eqb_spec (S u) W); repeat match goal with |- context [?x <? ?y] => destruct (Nat.ltb_spec x y) end; lia.
+      - intros t Ht. pose proof (c_mono _ _ _ _ _ _ _ _ H' kk t ltac:(lia) ltac:(lia)) as M. fold u in M.
+        pose proof (c_gw _ _ _ _ _ _ _ _ H' t ltac:(lia)). unfold R1, c1. destruct (Nat.eqb_spec (S u) W); lia.
+      - intros t Ht. destruct (Nat.eq_dec t kk) as [->|Hne]; [fold u; unfold R1, c1; destruct (Nat.eqb_spec (S u) W); lia|].
+        pose proof (c_mono _ _ _ _ _ _ _ _ H' t kk ltac:(lia) ltac:(lia)) as M. fold u in M. unfold R1, c1. destruct (Nat.eqb_spec (S u) W); lia. }
+    assert (workers_ok c B1 c1 (map (fun sv : wsave => wk_restored (fst sv, snd sv)) (sn_workers (sd_snapshot (state_dict sk))))) as Hwok.
+    { cbn [state_dict sd_snapshot]. rewrite Psn. split; [rewrite map_length; exact (w_len _ _ _ _ _ _ _ HW')|].
+      intros w Hw. rewrite nth_map_restored. split; [reflexivity|]. split; [reflexivity|].
+      destruct (entry_exact gw' rd' a' R' sk w H' HX' HP' Hw) as (j & Ej & Hj). fold kk u R1 c1 in Hj. rewrite Ej.
+      apply fut_rem. destruct Hj as [->|[Hj1 Hj2]]; [apply fut_restored|].
+      apply (fut_beyond (Bw c) w j); [apply fut_restored | lia | exact Hj2]. }
+    assert (forall w, w < W -> a0 c1 w <= nb B1 w) as Ha0.
+    { intros w _. unfold a0, nb, B1, Brem. destruct (w <? c1); cbn [length]; lia. }
+    specialize (T Hwok Ha0 sched2). rewrite Est0, Eref in T. specialize (T ltac:(lia)).
+    destruct (sdl_resume c (state_dict sk) sched2) as [sr sched']. rewrite Nat.sub_0_r, skipn_length in T. cbn [skipn] in T. exact T.
+Qed.
+
+End ResumeEveryStep.
